@@ -51,6 +51,15 @@ def make_key(U, sel, syntax):
         for l, s in sel.items():
             flat.extend(s["items"])
         return tuple(flat)
+    if syntax == "tuple_mixed":
+        # items of different dimensions interleaved (round robin): ('EUR', 'C', 'USA')
+        cols = [list(s["items"]) for s in sel.values()]
+        flat = []
+        for i in range(max(len(c) for c in cols)):
+            for c in cols:
+                if i < len(c):
+                    flat.append(c[i])
+        return tuple(flat)
     if syntax == "ellipsis":
         return Ellipsis
     raise ValueError(syntax)
@@ -213,7 +222,7 @@ def index_cases(draw, rw, max_dims=4, max_len=3):
         options.append("bare")
     if kinds <= {"single", "list"} and sel and rw == "write" or (kinds <= {"single"} and sel):
         if all(len(s["items"]) >= 2 for s in sel.values() if s["kind"] == "list"):
-            options += ["tuple", "tuple"]
+            options += ["tuple", "tuple_mixed", "tuple_mixed"]
     if not sel:
         options.append("ellipsis")
     syntax = draw(st.sampled_from(options))
@@ -318,7 +327,11 @@ def sequence_cases(draw):
         rw = draw(st.sampled_from(["read", "read", "write"]))
         if rw == "read" and any(v["kind"] == "list" for v in sel.values()):
             rw = "write"
-        steps.append({"sel": {l: dict(v) for l, v in sel.items()}, "rw": rw, "rhs": draw(st.sampled_from([{"kind": "number", "v": -7.5}, {"kind": "ndarray"}]))})
+        stp = {"sel": {l: dict(v) for l, v in sel.items()}, "rw": rw, "rhs": draw(st.sampled_from([{"kind": "number", "v": -7.5}, {"kind": "ndarray"}]))}
+        if draw(st.integers(0, 2)) == 0:
+            n_ = len(x["letters"])
+            stp["derive"] = {"how": draw(st.sampled_from(["sum_to", "sum_to", "cast_to", "neg", "subset"])), "perm": list(draw(st.permutations(list(range(n_)))))}
+        steps.append(stp)
     return {"universe": U, "x": x, "steps": steps, "copy_between": draw(st.booleans())}
 
 
@@ -378,6 +391,21 @@ def run_sequence(desc):
         n_lists += sum(1 for v in sel.values() if v["kind"] != "single" and len(v["items"]) >= 4)
         if desc.get("copy_between") and si == 0:
             x = x.copy()
+        d_ = stp.get("derive")
+        if d_:
+            # continue on an array DERIVED from the one that was just indexed (same data, maybe another dim order)
+            perm = [xd["letters"][i] for i in d_["perm"]] if d_.get("perm") else list(xd["letters"])
+            if d_["how"] == "sum_to":
+                x = x.sum_to(tuple(perm))
+            elif d_["how"] == "cast_to":
+                x = x.cast_to(x.dims.get_subset(tuple(perm)))
+            elif d_["how"] == "neg":
+                x = -(-x)
+                perm = list(xd["letters"])
+            else:
+                x = x.dims and fd.FlodymArray(dims=x.dims[tuple(perm)], values=np.transpose(x.values, [xd["letters"].index(l) for l in perm]).copy())
+            cur = cur.reorder(perm)
+            xd = dict(xd, letters=perm)
     return {"nontrivial": len(desc["steps"]) >= 2, "classes": [f"steps:{len(desc['steps'])}"] + (["long-subsets"] if n_lists >= 2 else [])}
 
 
